@@ -139,7 +139,7 @@ func concretise(v AV) interface{} {
 	case "stringer":
 		return vStringer{atomsText(v.S)}
 	case "ap":
-		r, err := pongo2.ApplyFilter(v.S[0], pongo2.AsValue(concretise(v.L[0])), pongo2.AsValue(concretise(v.L[1])))
+		r, err := pongo2.ApplyFilter(v.S[0], toValue(concretise(v.L[0])), toValue(concretise(v.L[1])))
 		if err != nil {
 			panic(apError{err})
 		}
@@ -842,3 +842,11 @@ func cmdC02Replay(args []string) {
 }
 
 func init() { commands["c02-replay"] = cmdC02Replay }
+
+// toValue wraps a Go value for ApplyFilter; the result of an inner (symbolic) filter application already is a *Value.
+func toValue(x interface{}) *pongo2.Value {
+	if v, ok := x.(*pongo2.Value); ok {
+		return v
+	}
+	return pongo2.AsValue(x)
+}
